@@ -26,15 +26,16 @@ type verifB struct {
 	limit     int // >= 0: emit only the first limit tokens
 	dropAt    int // >= 0: leave this token out
 	replaceAt int // >= 0: replace this token by ')'
+	quoteAt   int // >= 0: write this keyword / pseudo keyword occurrence with back quotes
 }
 
 func verifNewB(maxList, budget int) *verifB {
-	return &verifB{gapAt: -1, caseAt: -1, maxList: maxList, first: true, budget: budget, limit: -1, dropAt: -1, replaceAt: -1}
+	return &verifB{gapAt: -1, caseAt: -1, maxList: maxList, first: true, budget: budget, limit: -1, dropAt: -1, replaceAt: -1, quoteAt: -1}
 }
 
 // again prepares a second pass that repeats the recorded choices.
 func (b *verifB) again() *verifB {
-	return &verifB{gapAt: -1, caseAt: -1, maxList: b.maxList, first: true, rec: b.rec, replay: true, limit: -1, dropAt: -1, replaceAt: -1}
+	return &verifB{gapAt: -1, caseAt: -1, maxList: b.maxList, first: true, rec: b.rec, replay: true, limit: -1, dropAt: -1, replaceAt: -1, quoteAt: -1}
 }
 
 // gap starts a new token; it returns false if the token is to be left out
@@ -86,6 +87,9 @@ func (b *verifB) w(words string) {
 func (b *verifB) recase(word string) string {
 	k := b.nword
 	b.nword++
+	if k == b.quoteAt {
+		return "`" + word + "`"
+	}
 	if k != b.caseAt {
 		return word
 	}
@@ -648,8 +652,27 @@ func verifFamJoin(b *verifB) {
 		if b.opt() {
 			b.hint()
 		}
-		b.name(i + 1)
-		if !cross {
+		// right side: a table, or a correlated array (UNNEST / array path), whose join condition is optional
+		correlated := false
+		switch b.alt(3) {
+		case 0:
+			b.name(i + 1)
+		case 1:
+			correlated = true
+			b.w("UNNEST")
+			b.p("( a . arr )")
+			b.w("AS")
+			b.p("u")
+			if b.opt() {
+				b.w("WITH OFFSET")
+			}
+		default:
+			correlated = true
+			b.p("a . arr")
+			b.w("AS")
+			b.p("u")
+		}
+		if !cross && !(correlated && b.opt()) {
 			if b.opt() {
 				b.w("ON")
 				b.p("a . x = b . x")
